@@ -1,6 +1,6 @@
 (* C09 — pinned statements (model: Queue/Model.v; specification of the ring: Queue/Spec.v ring_push/ring_take). *)
 From Coq Require Import List NArith Bool.
-From MV Require Import Queue.Model Queue.Spec Queue.Inv Queue.Delivery Queue.Overflow.
+From MV Require Import Queue.Model Queue.Spec Queue.Inv Queue.Delivery Queue.Overflow Queue.RingSound C09.Codec.
 Import ListNotations.
 
 (* Appending is always possible: for every reachable state (any ring contents, the writer anywhere, parked
@@ -86,6 +86,13 @@ Print Assumptions c09_counter.
 Theorem c09_ring_bounded : forall c s, reachable c s -> length (q (sh s)) <= cap c.
 Proof. exact ring_bounded. Qed.
 Print Assumptions c09_ring_bounded.
+
+(* The executable ring specification that is replayed over the implementation's observations (appends, take
+   moments, `next` calls, counter increments) accepts every execution of the model. *)
+Theorem c09_ring_spec_holds_of_every_run : forall c ls,
+  ring_check (cap c) (trace c init ls) [] None = true.
+Proof. exact ring_check_sound_init. Qed.
+Print Assumptions c09_ring_spec_holds_of_every_run.
 
 (* ---- non-vacuity: capacity 2, writer completely stalled, four appends: the two oldest are displaced *)
 Local Open Scope N_scope.
